@@ -100,8 +100,16 @@ impl<K, V> OrderedQueue<K, V> {
         self.map.remove(&self.next)
     }
 
-    pub fn progress_to(&mut self, next: K) {
+    /// Advances the next expected key. Entries buffered below the new next can
+    /// never be popped anymore, so they are removed and returned to the caller.
+    pub fn progress_to(&mut self, next: K) -> BTreeMap<K, V>
+    where
+        K: Ord,
+    {
+        let remaining = self.map.split_off(&next);
+        let stale = std::mem::replace(&mut self.map, remaining);
         self.next = next;
+        stale
     }
 
     pub fn next(&self) -> &K {
